@@ -7,7 +7,7 @@ from .. import symx, shims, unit
 from ..symx import Engine
 from ..nslref import ast as A
 from ..nslref import joint
-from ..nslref.interp import RefError
+from ..nslref.interp import RefError, deep
 
 
 class VMFailure:
@@ -50,7 +50,8 @@ def check_program(prog, fname, *, harness, inst, extra_pre=(), quirks=(), optimi
     def fn():
         r_ref, g_ref = joint.ref_run(prog, fname, args, {n: gvals["" + n] for n in gnames}, quirks=quirks)
         try:
-            r_vm, g_vm = joint.vm_run(linked, fname, dict(args), {n: gvals[n] for n in gnames}, gnames)
+            # the VM writes into host lists in place: every path gets its own copy of the inputs
+            r_vm, g_vm = joint.vm_run(linked, fname, deep(dict(args)), {n: deep(gvals[n]) for n in gnames}, gnames)
         except symx.Abort:
             raise
         except Exception as e:  # noqa: BLE001 -- outcome of the code under analysis
@@ -99,6 +100,7 @@ def check_program(prog, fname, *, harness, inst, extra_pre=(), quirks=(), optimi
             res["nontrivial"] = True
         elif r == "unknown":
             res["undecided"] += 1
+            res.setdefault("notes", []).append("solver returned unknown for one path")
         else:
             res["sat"] += 1
             vals = unit.model_values(model)
@@ -109,6 +111,7 @@ def check_program(prog, fname, *, harness, inst, extra_pre=(), quirks=(), optimi
                 res["violations"].append(dict(what=f"{what}; {obs}", replay=spec, inputs=vals, observed=obs))
             elif any(k == "float" for _, _, k in zvars):
                 res["undecided"] += 1     # real-only discrepancy that does not reproduce with doubles
+                res.setdefault("notes", []).append(f"real-only discrepancy not reproduced with doubles: inputs {vals} ({what})")
             else:
                 res["errors"].append(f"integer counterexample {vals} did not reproduce for\n{src}")
     if eng.truncated:
